@@ -14,6 +14,10 @@ import concurrent.futures as cf
 VERIF = os.path.dirname(os.path.dirname(os.path.abspath(__file__)))
 SPEC = os.path.join(VERIF, "spec")
 WORK = os.path.join(VERIF, ".work")
+if os.environ.get("VERIF_REPO"):      # mutation experiment: private scratch so that it can run next to a normal run
+    WORK = os.path.join(VERIF, ".work", "mut_%d" % os.getpid())
+    import atexit
+    atexit.register(lambda: shutil.rmtree(WORK, ignore_errors=True))
 JAR = "/opt/veriftools/tla/tla2tools.jar"
 DEPS = "/opt/veriftools/tla/CommunityModules-deps.jar"
 
